@@ -483,27 +483,9 @@ def c06 (ms : M) (e : Event) : List String :=
 
 /-! ## C07: resets only when agreed; forward-only SequenceReset; reset Logon numbering -/
 
-/-- a wire write with both counters as they stand when it is written (tracked through the store events before it) -/
-structure WAt where
-  k : String
-  sq : String
-  f : Fields
-  S : Int
-  T : Int
-
-def wiresAt (S0 T0 : Int) (items : List Item) : List WAt :=
-  (items.foldl (fun (acc : Int × Int × List WAt) i =>
-    match i with
-    | .store ["reset"] => (1, 1, acc.2.2)
-    | .store ("save" :: _) => (acc.1 + 1, acc.2.1, acc.2.2)
-    | .store ["incS"] => (acc.1 + 1, acc.2.1, acc.2.2)
-    | .store ["incT"] => (acc.1, acc.2.1 + 1, acc.2.2)
-    | .store ["setT", n] => (acc.1, (n.toInt?).getD acc.2.1, acc.2.2)
-    | .wire k sq f => (acc.1, acc.2.1, acc.2.2 ++ [{ k := k, sq := sq, f := f, S := acc.1, T := acc.2.1 }])
-    | _ => acc) (S0, T0, [])).2.2
-
-/-- our next outbound number as `handleLogon` compares the peer's tag 789 with it: before the reply, after a reset the
-    Logon causes (ResetOnLogon, an honoured ResetSeqNumFlag).  A reply carrying 141=Y resets the store once more on its way
+/-- EnableNextExpectedMsgSeqNum (no property speaks about tag 789: the option is tied by the correspondence; this helper only
+    keeps C20's tracking of the heartbeat interval exact).  Our next outbound number as the acceptor's `sendLogonInReplyTo`
+    compares the peer's tag 789 with it: before the reply, after a reset the Logon causes (ResetOnLogon, an honoured ResetSeqNumFlag).  A reply carrying 141=Y resets the store once more on its way
     out (prepMessageForSend): that reset, the last one before the reply is saved, is not counted. -/
 def senderAtLogon (S0 : Int) (items : List Item) : Int :=
   let pre := items.takeWhile fun i => match i with
@@ -520,63 +502,6 @@ def senderAtLogon (S0 : Int) (items : List Item) : Int :=
 
 /-- tag 789 of an inbound Logon when it is a number -/
 def peer789 (m : InMsg) : Option Int := (fget m.f 789).bind numeric?
-
-/-- EnableNextExpectedMsgSeqNum (tag 789), read as the configuration documents it ("add tag 789 on the sent Logon and use the
-    value of tag 789 on a received Logon to synchronise the session"):
-    * a Logon we send on our own account announces the inbound number we expect once it is out (1 when it resets), the reply
-      to a Logon the number expected once the Logon being answered is counted; none without the option;
-    * a Logon whose 789 is above our next outbound number (messages we never sent) does not establish the session;
-    * an accepted Logon (no tag 141) whose 789 is below our next outbound number is followed by exactly one
-      SequenceReset-GapFill from the peer's 789 to the number we use next — with and without message persistence, nothing is
-      replayed — and by none otherwise. -/
-def c07nx (ms : M) (e : Event) : List String :=
-  let cfg := ms.cfg
-  let prev := ms.prev
-  let role := if cfg.initiator then "initiator" else "acceptor"
-  let ws := wiresAt ms.S ms.T e.items
-  let inb := inboundOf ms e.op
-  let inLogon := (inb.map fun m => kindOf m == "A").getD false
-  -- (1) what our Logons announce
-  let badSent : List String := ws.flatMap fun w =>
-    if w.k != "A" then [] else
-    let v := fget w.f 789
-    if !cfg.nextExpected then (if v.isSome then ["C07.next_expected_sent_unconfigured"] else []) else
-    match e.op with
-    | .connect => if v.bind numeric? == some e.after.T then [] else ["C07.next_expected_sent_wrong{logon=own,role=" ++ role ++ "}"]
-    | .rtime _ => if v.bind numeric? == some e.after.T then [] else ["C07.next_expected_sent_wrong{logon=own-reset,role=" ++ role ++ "}"]
-    | _ =>
-      if !inLogon then [] else
-      (match v with
-       | some x => if numeric? x == some (w.T + 1) then [] else ["C07.next_expected_sent_wrong{logon=reply,role=" ++ role ++ "}"]
-       | none => if ((inb.bind peer789).isSome) then ["C07.next_expected_sent_wrong{logon=reply-without,role=" ++ role ++ "}"] else [])
-  -- (2), (3) what the peer's 789 does
-  let badIn : List String := match inb with
-    | none => []
-    | some m =>
-      if kindOf m != "A" || !prev.stash.isEmpty then [] else
-      let accepted := e.items.contains .onLogon
-      let has141 := (fget m.f 141).isSome
-      let n := senderAtLogon ms.S e.items
-      let gfs := ws.filter fun w => w.k == "4"
-      let ownAnswer := ms.ourResetPending && stLoggedOn prev.st
-      match (if cfg.nextExpected then peer789 m else none) with
-      | none => if gfs.isEmpty then [] else ["C07.next_expected_gapfill_spurious{case=no-789}"]
-      | some x =>
-        let ahead :=
-          if x > n && accepted && !ownAnswer && (!cfg.initiator || !has141) then ["C07.next_expected_ahead_accepted{role=" ++ role ++ "}"] else []
-        let fill :=
-          if accepted && !has141 && x < n then
-            (match gfs with
-             | [w] =>
-               (if numeric? w.sq == some x then [] else ["C07.next_expected_gapfill_wrong{field=MsgSeqNum,role=" ++ role ++ "}"])
-               ++ (if (fget w.f 36).bind numeric? == some w.S then [] else ["C07.next_expected_gapfill_wrong{field=NewSeqNo,role=" ++ role ++ "}"])
-               ++ (if fget w.f 123 == some "Y" && fget w.f 43 == some "Y" then [] else ["C07.next_expected_gapfill_wrong{field=flags,role=" ++ role ++ "}"])
-             | [] => ["C07.next_expected_gapfill_missing{persist=" ++ (if cfg.persist then "on" else "off") ++ "}"]
-             | _ => ["C07.next_expected_gapfill_repeated"])
-          else if gfs.isEmpty then []
-          else ["C07.next_expected_gapfill_spurious{case=" ++ (if has141 then "reset-logon" else if !accepted then "not-accepted" else if x == n then "in-sync" else "ahead") ++ ",role=" ++ role ++ "}"]
-        ahead ++ fill
-  badSent ++ badIn
 
 def c07 (ms : M) (e : Event) : List String :=
   let cfg := ms.cfg
@@ -682,7 +607,6 @@ def c07 (ms : M) (e : Event) : List String :=
     if cfg.resetOnDisconnect && stConnected prev.st && !stConnected e.after.st
        && (resets.isEmpty || e.after.S != 1 || e.after.T != 1) then ["C07.reset_on_disconnect_missing"] else []
   badReset ++ bad40 ++ badRtime ++ badEchoReset ++ badEcho ++ badHonour ++ badBack ++ badSeqReset ++ badS ++ badLogoutReset ++ badDiscReset
-  ++ c07nx ms e
 
 /-! ## C08: the shape of a connection -/
 
